@@ -470,6 +470,22 @@ example : ((newMR { data := [4, 0, 134], fault := some (2, 9) }).read 5).2.2 = s
 -- and without the fault the same cut input gives io.ErrUnexpectedEOF
 example : ((newMR { data := [4, 0] }).read 5).2.2 = some .ueof := by decide
 
+-- non-vacuity: a source that fails after the last byte of a final block is never asked again
+set_option maxRecDepth 100000 in
+example :
+    (MR.run (newMR { data := [4, 192, 134, 5, 0, 32, 41, 100, 20, 161, 20, 234, 255, 235, 218, 123, 251], fault := some (17, 9) })
+      [.read 2, .read 2, .read 2, .close]).2 =
+    [.read [0x61, 0x62] none, .read [0x63] none, .read [] (some .eof), .close none] := by
+  decide
+-- a fault inside the block: the error verbatim, sticky, reported by Close; Reset (onto an empty source) = fresh
+set_option maxRecDepth 100000 in
+example :
+    (MR.run (newMR { data := [4, 192, 134, 5, 0, 32, 41, 100, 20, 161, 20, 234, 255, 235, 218, 123, 251], fault := some (16, 9) })
+      [.read 2, .close, .read 1, .reset {}, .read 1, .close, .close, .read 1]).2 =
+    [.read [] (some (.fault 9)), .close (some (.fault 9)), .read [] (some (.fault 9)), .reset, .read [] (some .eof),
+     .close none, .close none, .read [] (some .closed)] := by
+  decide
+
 end metaReader
 
 end Compress.Props.C09
